@@ -469,10 +469,21 @@ func (cs *clientStream) doHttpCall(transport http.RoundTripper, req *http.Reques
 	// server does not finish the reply until it has read the request to its
 	// end, and the client could not end the request (SendMsg and CloseSend
 	// callers wait on rMu, and the request pipe is only closed on completion).
+	//
+	// It is drained (so that the connection can be re-used) only if the reply
+	// was read to its proper end, and then only as far as a well-formed reply
+	// can still go on. After a failure - a bad frame, a message over the
+	// limit, a read error - the rest is of no interest: reading on would keep
+	// this goroutine, and whatever the peer keeps sending, for as long as the
+	// peer likes, and would never tell the peer that nobody is listening.
+	// Closing the body without draining it drops the connection.
 	var replyBody io.ReadCloser
+	failed := false
 	defer func() {
 		if replyBody != nil {
-			ioutil.ReadAll(replyBody)
+			if !failed {
+				io.CopyN(ioutil.Discard, replyBody, maxDrainBytes)
+			}
 			replyBody.Close()
 		}
 	}()
@@ -496,6 +507,7 @@ func (cs *clientStream) doHttpCall(transport http.RoundTripper, req *http.Reques
 			}
 		}
 		cs.done = true
+		failed = cs.rErr != nil
 		pipeErr := cs.rErr
 		if pipeErr == nil {
 			// a send that is in flight when the call completes fails like any
@@ -634,6 +646,11 @@ func methodPath(basePath, methodName string) (string, error) {
 	}
 	return path.Join(basePath, name), nil
 }
+
+// maxDrainBytes is how much of a reply body is read and discarded after the
+// final trailer message (normally nothing but the end of the chunked encoding
+// follows it).
+const maxDrainBytes = 64 * 1024
 
 // roundTripError translates an error returned by the transport's RoundTrip.
 // A transport need not report a cancelled or timed out request with the
